@@ -240,7 +240,7 @@ func (x *Exec) noteRel(ttls []int64, t0, t1 int64, results []Res) error {
 	return nil
 }
 
-func hx(b []byte) string { return hex.EncodeToString(b) }
+func hx(b []byte) string { return "x" + hex.EncodeToString(b) }
 
 func optI(v sql.NullInt64) string {
 	if !v.Valid {
